@@ -114,7 +114,11 @@ class Symbol(Node):  # pylint: disable=too-few-public-methods
     """
 
     def get_str_repr(self, sons_repr):
-        return str(self.value)
+        value = str(self.value)
+        if value in SPECIAL_SYMBOLS:
+            # A symbol spelled like an operator has to be escaped
+            return "\\" + value
+        return value
 
     def get_cfg_rules(self, current_symbol, sons):
         """ Gets the rules for a context-free grammar to represent the \
@@ -207,6 +211,10 @@ class Empty(Symbol):  # pylint: disable=too-few-public-methods
 
     def __init__(self):
         super().__init__("Empty")
+
+    def get_str_repr(self, sons_repr):
+        # The empty language is written as the empty expression
+        return ""
 
     def get_cfg_rules(self, current_symbol, sons):
         return []
